@@ -220,6 +220,15 @@ def gen_desc(seed, idx):
         rs = rng.choice(lens) if (both or rq <= 10) else rng.choice([0, 3, 10])
         ops.append({'t': t, 'op': 'req', 'c': 'c0', 's': 's0', 'tok': TOK_BASE + k + 1, 'rq': rq, 'rs': rs})
         t += rng.choice([0.0, 0.5, 20.0])
+    # the responder also issues requests of its own (both stacks play both roles): what a stack learned about its peer
+    # while SERVING it must not change what it may send to it as a requester
+    if stacks[1].get('mode', 'direct') == 'direct' and rng.random() < 0.5:
+        lens_b = lengths_for(caps[1]['maxApdu'], caps[0]['maxApdu'], None)
+        for k in range(rng.randint(1, 3)):
+            rq = rng.choice(lens_b) if rng.random() < 0.7 else rng.choice([0, 3, 10])
+            ops.append({'t': round(1.0 + rng.choice([0.25, 10.25, 30.25, 70.25]), 3), 'op': 'req', 'c': 's0', 's': 'c0', 'tok': TOK_BASE + 100 + k, 'rq': rq,
+                        'rs': rng.choice([0, 3, 10])})
+        ops.sort(key=lambda o: o['t'])
     faults = {'mode': 'none'}
     if rng.random() < 0.2:
         faults = {'mode': 'hashed', 'rates': {rng.choice(['drop', 'delay']): 0.05}, 'salt': rng.randrange(1 << 30),
